@@ -756,6 +756,13 @@ example : StepPre wSrv65 [List.replicate 40 0x55] ⟨23, [1], false, 0⟩ [0x0A,
 example : (l2capInput Handlers.std wSrv65 [List.replicate 40 0x55] ⟨23, [1], false, 0⟩ [0x0A, 0x03, 0x00] 23).resp =
     .pdu (0x0B :: List.replicate 22 0x55) := by decide
 
+/-- non-vacuity of `notify_no_oob` / `history_no_oob`: the same table and state, CCCD position 0,
+    a two-step history (Exchange MTU 100, then a Read Blob) -/
+example : TableWF wSrv65 = true ∧ StateWF wSrv65 [List.replicate 40 0x55] ⟨23, [1], false, 0⟩ = true ∧
+    0 < wSrv65.ntf.length ∧
+    respsOf Handlers.std wSrv65 [List.replicate 40 0x55] ⟨23, [1], false, 0⟩
+      [([0x02, 100, 0], 65), ([0x0C, 0x03, 0x00, 38, 0], 65)] = [.pdu [0x03, 65, 0], .pdu [0x0D, 0x55, 0x55]] := by decide
+
 /-- … and the hypotheses are needed: a bound value whose memory is shorter than its declared size
     (impossible in C++, `StateWF` = false) makes the model report the out-of-bounds copy -/
 example : StateWF wSrv65 [List.replicate 10 0x55] ⟨23, [1], false, 0⟩ = false ∧
